@@ -122,6 +122,11 @@ def units():
     for ck in ('plain', 'percb'):
         out.append(('C13/data_block_line@%s' % ck, C01.unit_line('RECV_PLUS', ck)))
         out.append(('C13/data_block_start@%s' % ck, C01.unit_line('IDLE', ck)))
+    # the reply text handed to the parsers is assembled by the line handlers: text of an asynchronous event that
+    # arrives between replies must not leak into the next reply (units shared with C02: inv.idle_has_no_partial_reply)
+    from props import C02
+    for ck in ('none', 'plain', 'percb'):
+        out.append(('C13/event_between_replies@%s' % ck, C02.unit_event_line('RECV', ck)))
     return out
 
 
